@@ -117,7 +117,7 @@ def programs(D, tier, seed):
     # every atom alone over a StandardNormal, then random compositions of depth 2..3 over every base
     plan = [([n], "StandardNormal", False) for n in names]
     plan += [([n], "StandardNormal", True) for n in names if "Coupling" in n or "Autoregressive" in n]
-    nrand = (10 if D == 1 else 6) if tier == "quick" else (80 if D == 1 else 30)
+    nrand = (10 if D == 1 else 6) if tier == "quick" else (60 if D == 1 else 14)
     rng = np.random.RandomState(stable_hash(("c03", D, seed)) % (2 ** 31))
     bnames = sorted(B)
     for i in range(nrand):
@@ -211,7 +211,7 @@ def decide(fl, ctx, D, box, tier):
         L, n, order = 16.0, 4000, 3
     else:
         L, n, order = 9.0, 48, 4
-    budget = 2000000 if D == 1 else (3000000 if tier == "quick" else 40000000)     # points of the finest grid
+    budget = 2000000 if D == 1 else (3000000 if tier == "quick" else 6000000)     # points of the finest grid
     for r in range(8):
         dom = (None, L) if box is None else (box, None)
         vals, nan = [], False
